@@ -14,6 +14,10 @@ import (
 // clockRead returns a fresh reading of the symbolic clock: >= the previous reading, within [0, 2^62).
 func (it *Interp) clockRead() IntV {
 	name := "now"
+	if it.clockLogical {
+		it.clockN++
+		return mkInt(uint64(1_000_000_000+1000*int64(it.clockN)), 64, true)
+	}
 	if it.Cfg.Concrete != nil {
 		v := it.nondet(name, 64, true)
 		return v
